@@ -105,7 +105,7 @@ def main():
         o = dt_obj(phi, S, vs_u, factory="StlDiscreteTimeSpecification", mode={"sem": sem, "io": {v: io.get(v, "output") for v in vs_u}}, set_io=True)
         evs = [ev_parse(), ev_pastify()] + [ev_update(t, sample_at(w, t)) for t in range(N)]
         cases.append(case([o], evs, skip=["update.viol"]))
-    # ---- dense time: offline evaluate() and online update() (single batch) under the 5 semantics
+    # ---- dense time: offline evaluate() and online update() (one batch or a random partition into batches) under the 5 semantics
     dcases = []
     for i in range(n // 3):
         S = rng.choice([1, 1, 2])
@@ -117,13 +117,7 @@ def main():
         if not online:
             ops += ["ev", "alw", "until", "evT", "alwT"]
         g = Gen(rng, vars_=vs, S=S, ops=ops, ivs=[(0, 1), (1, 2), (0, 3)])
-        def atom(g=g):
-            for _ in range(20):
-                a = ia_atoms(rng, g)
-                if vars_of(a):            # constant-only predicates: known finding F-05b online; keep them to the discrete part
-                    return a
-            return a
-        g.atom = atom
+        g.atom = lambda g=g: ia_atoms(rng, g)
         phi = g.formula(rng.choice([0, 1, 1, 2]))
         if not vars_of(phi):
             continue
@@ -133,6 +127,9 @@ def main():
         w = {v: gen_signal(rng, rng.choice([2, 3, 4]), t0=0, S=S, end=end, lo=-2, hi=3) for v in vs}
         o = ct_obj(phi, S, vs, factory="StlDenseTimeSpecification", mode={"sem": sem, "io": io}, set_io=True)
         evs = [ev_parse(), ev_ct("update" if online else "evaluate", w)]
+        if online and rng.random() < 0.5:
+            import c05 as _c05
+            evs = [ev_parse()] + _c05.schedule_events(w, {v: rng.choice(_c05.splits(len(w[v]))) for v in vs}, 1)
         dcases.append(case([o], evs, kind="ct_on" if online else "ct_off"))
     dtr = runner.run_cases(dcases)
     dvs, dgen, ddist = core.validate("C06_dense", dtr, module="TraceCt")
